@@ -22,12 +22,61 @@ def run(rep, prog, tier):
     r8(rep, prog)
     r9(rep, prog)
     r10(rep, prog)
+    r11(rep, prog)
     rep.rule("C12-R6", "score memo invalidation (shared with C13-R2): a scorer whose score() memoises its result in a field of self (RequiredOptionalScorer.score_cache) stores into that field in every DocSet method that moves a sub-docset — advance, seek and seek_danger — so the score reported for a document is the one computed for that document, however it was reached")
     from ..report import Retag
     from .c13 import memo_invalidation
     memo_invalidation(Retag(rep, "C12-R6"), prog, "C12-R6")
     tab = ct.const_int_array(prog, "tantivy::fieldnorm::code::FIELD_NORMS_TABLE")
     rep.check(tab is not None and len(tab) == 256 and all(tab[i] > tab[i - 1] for i in range(1, 256)) and tab[0] == 0, "C12-R3", "FIELD_NORMS_TABLE is a strictly increasing 256-entry table", "quantisation is order preserving", "FIELD_NORMS_TABLE is not a strictly increasing 256-entry table starting at 0")
+
+
+CONST_SCORE_OK = {
+    "tantivy::query::all_query::AllScorer": "matches everything with score 1.0 by definition; boosts are applied by the BoostScorer / ConstScorer around it",
+}
+
+
+def r11(rep, prog):
+    """a literal score is only returned when there is no weight to score with"""
+    import re
+    from ..rules import dominating_guards, place_ty
+    from ..model import op_place, place_local, is_bare
+    R = "C12-R11"
+    rep.rule(R, "no scorer answers a scored query with a literal: a Scorer::score that returns the constant 1.0 does so only on the arm where its own Option<Bm25Weight> is None (scoring disabled: the value is never looked at), or is tabled (AllScorer). A scorer that returns 1.0 although a similarity weight — already multiplied by the query's boost — was handed to its constructor ignores BM25 and the boost, while explain() (BoostWeight::explain multiplies the inner explanation) reports the boosted value")
+    ONE = "1065353216"
+    n = 0
+    for fid, b in sorted(prog.bodies.items()):
+        m = re.match(r"^<(.+) as tantivy::query::scorer::Scorer>::score$", fid)
+        if not m:
+            continue
+        ty = m.group(1).split("<")[0]
+        for bi in b.normal_blocks():
+            for st in b.stmts(bi):
+                if not (is_bare(st["d"]) and st["d"] == 0 and st.get("r") == "use" and st["o"][0].get("v") == ONE):
+                    continue
+                n += 1
+                if ty in CONST_SCORE_OK:
+                    rep.ok(R, "%s::score returns 1.0" % short(ty), "tabled: " + CONST_SCORE_OK[ty], site=site(b, bi))
+                    continue
+                guarded = False
+                for sb, through, gl in dominating_guards(b, bi):
+                    tr = trace_back(b, gl)
+                    if not tr or not any(x[0] == "discr" for x in tr):
+                        continue
+                    # the place whose discriminant is read
+                    for blk in b.normal_blocks():
+                        for s2 in b.stmts(blk):
+                            if s2.get("r") == "discr" and is_bare(s2["d"]) and s2["d"] == gl or (s2.get("r") == "discr" and s2["d"] in [x for x in [gl]]):
+                                row = place_ty(prog, b, s2["p"])
+                                tys = (row or {}).get("s", "") if isinstance(row, dict) else ""
+                                listed = {v for v, _ in b.term(sb)["vals"]}
+                                none_arms = {"0"} | ({"else"} if "1" in listed else set())
+                                if "Bm25Weight" in tys and "Option" in tys and set(through) <= none_arms:
+                                    guarded = True
+                rep.check(guarded, R, "%s::score returns the literal 1.0 only without a similarity weight" % short(ty), "on the None arm of its Option<Bm25Weight>",
+                          "`%s` returns the literal 1.0 on a path that is not the None arm of an Option<Bm25Weight> of the scorer: the similarity weight built for the query (BM25, multiplied by the boost) is ignored — "
+                          "score(Boost(q, b)) stays 1.0 while explain() reports b; inside a boolean query the unboosted 1.0 is summed with correctly boosted clauses" % fid, site=site(b, bi))
+    rep.floor(R, "Scorer::score impls returning the literal 1.0", n, 3)
 
 
 WINDOW_EXEMPT = {
